@@ -20,6 +20,15 @@ Fixpoint hex_join (l : bytes) : list N :=
 Definition hex_string (s : bytes) : list N := hex8 (len s) ++ 58 :: hex_join s.
 Definition dump_line_hex (e : entry) : list N := hex_string (fst e) ++ 32 :: hex_string (snd e).
 
+(* print_string (libmy/print_string.h), the text mode: a double quote, then every byte - printable in the C locale
+   (0x20..0x7e; mtbl_dump never calls setlocale) as itself, a double quote as backslash + quote, anything else as
+   backslash x and two hex digits -, then a double quote *)
+Definition text_char (c : N) : list N :=
+  if (32 <=? c) && (c <=? 126) then (if c =? 34 then [92; 34] else [c])
+  else [92; 120] ++ hex2 c.
+Definition text_string (s : bytes) : list N := 34 :: flat_map text_char s ++ [34].
+Definition dump_line_text (e : entry) : list N := text_string (fst e) ++ 32 :: text_string (snd e).
+
 Record dump_opts := mkdo {
   do_key_prefix : option bytes;      (* -k *)
   do_val_prefix : option bytes;      (* -v *)
@@ -45,6 +54,12 @@ Variable decompress : N -> bytes -> res bytes.
 Definition dump_hex (o : dump_opts) (fuel : nat) (file : bytes) : option (list (list N)) :=
   match read_all decompress fuel file with
   | Ok es => Some (map dump_line_hex (filter (dump_keep o) es))
+  | _ => None
+  end.
+(* mtbl_dump [filters] file (text mode) *)
+Definition dump_text (o : dump_opts) (fuel : nat) (file : bytes) : option (list (list N)) :=
+  match read_all decompress fuel file with
+  | Ok es => Some (map dump_line_text (filter (dump_keep o) es))
   | _ => None
   end.
 End Dump.
